@@ -139,12 +139,13 @@ type modelSession struct {
 	out      *bufio.Reader
 	declared map[string]bool
 	evals    int
+	dead     bool
 }
 
 var declRe = regexp.MustCompile(`(?m)^\(declare-const (\S+|\|[^|]*\|) `)
 
-func startModelSession(query string, timeout time.Duration) (*modelSession, string) {
-	cmd := exec.Command("z3-new", "-in", "-T:"+fmt.Sprint(int(timeout.Seconds())+30))
+func startModelSession(bin string, query string, timeout time.Duration) (*modelSession, string) {
+	cmd := exec.Command(bin, "-in", "-T:"+fmt.Sprint(int(timeout.Seconds())+30))
 	in, err := cmd.StdinPipe()
 	if err != nil {
 		return nil, "error"
@@ -167,6 +168,9 @@ func startModelSession(query string, timeout time.Duration) (*modelSession, stri
 	line, err := s.out.ReadString('\n')
 	timer.Stop()
 	if err != nil {
+		if os.Getenv("GOVC_REPLAY_DEBUG") != "" {
+			fmt.Fprintf(os.Stderr, "replay session %s: read error %v after %q\n", bin, err, line)
+		}
 		s.close()
 		return nil, "error"
 	}
@@ -177,6 +181,43 @@ func startModelSession(query string, timeout time.Duration) (*modelSession, stri
 	}
 	return s, "sat"
 }
+
+// smallModelVariants returns the query with bounds on its parameters added (slice lengths/offsets and
+// integers; slices only), most constrained first; the unchanged query is last
+func smallModelVariants(query string) []string {
+	var slb, intb []string
+	for _, m := range declSortRe.FindAllStringSubmatch(query, -1) {
+		name, sort := m[1], m[2]
+		if !strings.HasPrefix(strings.Trim(name, "|"), "in.") {
+			continue
+		}
+		switch sort {
+		case "Slice":
+			slb = append(slb, fmt.Sprintf("(assert (and (<= (s-len %s) 4) (<= (s-off %s) 4) (<= (s-cap %s) 8)))", name, name, name))
+		case "Int":
+			intb = append(intb, fmt.Sprintf("(assert (and (<= (- 16) %s) (<= %s 16)))", name, name))
+		}
+	}
+	ins := func(extra []string) string {
+		i := strings.LastIndex(query, "(check-sat)")
+		if i < 0 || len(extra) == 0 {
+			return ""
+		}
+		return query[:i] + strings.Join(extra, "\n") + "\n" + query[i:]
+	}
+	var out []string
+	if v := ins(append(append([]string{}, slb...), intb...)); v != "" {
+		out = append(out, v)
+	}
+	if len(intb) > 0 {
+		if v := ins(slb); v != "" {
+			out = append(out, v)
+		}
+	}
+	return append(out, query)
+}
+
+var declSortRe = regexp.MustCompile(`(?m)^\(declare-const (\S+|\|[^|]*\|) (\S+)\)`)
 
 func (s *modelSession) close() {
 	if s == nil {
@@ -193,12 +234,15 @@ func (s *modelSession) eval(text string) (*sexp, error) {
 	if s.evals > 20000 {
 		return nil, fmt.Errorf("too many evaluations")
 	}
-	timer := time.AfterFunc(10*time.Second, func() { s.cmd.Process.Kill() })
+	timer := time.AfterFunc(5*time.Second, func() { s.cmd.Process.Kill() })
 	defer timer.Stop()
 	if _, err := io.WriteString(s.in, "(get-value ("+text+"))\n"); err != nil {
 		return nil, err
 	}
 	e, err := readSexp(s.out)
+	if os.Getenv("GOVC_REPLAY_DEBUG") != "" {
+		fmt.Fprintf(os.Stderr, "eval %s -> %v %v\n", text, e, err)
+	}
 	if err != nil {
 		return nil, err
 	}
@@ -252,10 +296,15 @@ func sexpRat(e *sexp) (*big.Rat, bool) {
 
 type replayFail struct{ msg string }
 
+// replayRefine asks for another model with extra ground constraints
+type replayRefine struct{ constraints []string }
+
 type backing struct {
 	name  string
 	elemT types.Type
-	size  int64
+	min   int64 // smallest offset used by a slice over this array (indices are shifted by it)
+	hasM  bool
+	size  int64 // one past the largest absolute index needed
 	cells map[int64]string // index -> Go expression
 	done  map[int64]bool
 }
@@ -289,6 +338,7 @@ type rebuilder struct {
 	mapsOf  map[string]string
 	inexact []string
 	summary []string
+	pins    []string // ground facts of the model evaluated so far (kept when the model is refined)
 }
 
 func (b *rebuilder) fail(f string, a ...interface{}) { panic(replayFail{fmt.Sprintf(f, a...)}) }
@@ -338,6 +388,9 @@ func (b *rebuilder) evalInt(t *Term) (*big.Int, bool) {
 	n, ok := sexpInt(e)
 	if !ok {
 		b.fail("not an integer value: %s", e)
+	}
+	if !strings.Contains(txt, "str_len") && !strings.Contains(txt, "str_at") {
+		b.pins = append(b.pins, fmt.Sprintf("(assert (= %s %s))", txt, e))
 	}
 	return n, true
 }
@@ -444,7 +497,11 @@ func (b *rebuilder) stringExpr(t *Term) string {
 			// two different model strings with the same bytes: equal in Go only if the model says so
 			if txt, ok := b.termText(Eq(s.term, t)); ok {
 				if e, err := b.s.eval(txt); err == nil && e.atom != "true" {
-					b.fail("the model has two different strings with equal content (%q): not representable", lit)
+					// uninterpreted strings are not extensional in the model: ask for a model in which
+					// these two different strings also differ in length
+					t1, _ := b.termText(s.term)
+					t2, _ := b.termText(t)
+					panic(replayRefine{[]string{fmt.Sprintf("(assert (not (= (str_len %s) (str_len %s))))", t1, t2)}})
 				}
 			}
 		}
@@ -555,20 +612,19 @@ func (b *rebuilder) sliceExpr(t types.Type, u *types.Slice, v *Term, depth int) 
 	if !ok {
 		return "nil"
 	}
-	ln := b.small(lnB, "slice length", 512)
+	ln := b.small(lnB, "slice length", 2048)
 	baseB, _ := b.evalInt(SBase(v))
 	offB, _ := b.evalInt(SOff(v))
 	capB, _ := b.evalInt(SCap(v))
 	if baseB.Sign() == 0 {
 		return "nil"
 	}
-	off := b.small(offB, "slice offset", 4096)
+	off := b.small(offB, "slice offset", 1<<40)
 	cp := ln
 	if capB.IsInt64() && capB.Int64() > ln {
 		cp = capB.Int64()
 		if cp > ln+8 {
-			cp = ln + 8
-			b.inexact = append(b.inexact, "slice capacity clamped")
+			cp = ln + 8 // spare capacity is kept, only its amount is reduced
 		}
 	}
 	if sortOf(u.Elem()) == nil {
@@ -584,6 +640,9 @@ func (b *rebuilder) sliceExpr(t types.Type, u *types.Slice, v *Term, depth int) 
 	if off+cp > bk.size {
 		bk.size = off + cp
 	}
+	if !bk.hasM || off < bk.min {
+		bk.min, bk.hasM = off, true
+	}
 	h := elemHeapName(u.Elem())
 	hv := Var(heapVarName(h)+"@0", ArraySort(SInt, ArraySort(SInt, sortOf(u.Elem()))))
 	if b.s.declared[symName(hv.Name)] {
@@ -596,7 +655,8 @@ func (b *rebuilder) sliceExpr(t types.Type, u *types.Slice, v *Term, depth int) 
 			bk.cells[i] = b.value(u.Elem(), Select(row, IntLit(i)), depth+1)
 		}
 	}
-	return fmt.Sprintf("%s[%d:%d:%d]", bk.name, off, off+ln, off+cp)
+	// offsets are shifted by the array's smallest offset when the test is printed
+	return fmt.Sprintf("%s[@%d@:@%d@:@%d@]", bk.name, off, off+ln, off+cp)
 }
 
 func (b *rebuilder) finishMaps() {
@@ -722,41 +782,102 @@ func (p *Program) replayObligation(o *Obligation, repoDir, verifDir string) (res
 	}
 	defer func() { floatSort = savedFloat }()
 	query := p.buildQuery(o, 2)
-	sess, verdict := startModelSession(query, 30*time.Second)
-	if sess == nil {
-		res.Why = "no model could be extracted (z3 5.1.0 answered " + verdict + " when asked again)"
-		return
-	}
-	defer sess.close()
-	res.Attempted = true
-	b := &rebuilder{p: p, s: sess, pkg: fn.Pkg.Pkg, imports: map[string]string{}, objs: map[string]string{}, backs: map[string]*backing{}, ints: map[string]*Term{}, mapsOf: map[string]string{}}
+	// z3 5.1.0 first: the model evaluator of 4.8.12 does not return on some array models
+	bins := []string{"z3-new", "/usr/bin/z3"}
+	var sess *modelSession
+	var b *rebuilder
 	var argExprs []string
-	func() {
-		defer func() {
-			if r := recover(); r != nil {
-				if rf, ok := r.(replayFail); ok {
-					res.Why = "the counter-model could not be turned into Go inputs: " + rf.msg
-					return
-				}
-				if _, ok := r.(unsupported); ok {
-					res.Why = "the counter-model could not be turned into Go inputs (unsupported value)"
-					return
-				}
-				panic(r)
-			}
-		}()
-		for i, prm := range fn.Params {
-			if i >= len(fc.entryArgs) {
-				b.fail("parameter %s has no entry value", prm.Name())
-			}
-			a := fc.entryArgs[i]
-			if a.T == nil {
-				b.fail("parameter %s of type %s has no first-class model value", prm.Name(), prm.Type())
-			}
-			argExprs = append(argExprs, b.value(prm.Type(), a.T, 0))
+	var extra []string
+	for round := 0; round < 6; round++ {
+		verdict := ""
+		q0 := query
+		if len(extra) > 0 {
+			i := strings.LastIndex(query, "(check-sat)")
+			q0 = query[:i] + strings.Join(extra, "\n") + "\n" + query[i:]
 		}
-		b.finishMaps()
-	}()
+		variants := smallModelVariants(q0)
+		if round > 0 {
+			variants = []string{q0} // the shape is pinned already
+		}
+		sess = nil
+		for _, q := range variants {
+			for _, bin := range bins {
+				var v string
+				sess, v = startModelSession(bin, q, 12*time.Second)
+				verdict += " " + filepath.Base(bin) + "=" + v
+				if sess != nil {
+					break
+				}
+			}
+			if sess != nil {
+				break
+			}
+		}
+		if os.Getenv("GOVC_REPLAY_DEBUG") != "" {
+			fmt.Fprintf(os.Stderr, "replay round %d:%s\n", round, verdict)
+			os.WriteFile(fmt.Sprintf("/tmp/govc_replay_round%d.smt2", round), []byte(q0), 0o644)
+		}
+		if sess == nil {
+			if round > 0 {
+				res.Why = "no extensional model could be extracted (strings of the model are not determined by their bytes)"
+			} else {
+				res.Why = "no model could be extracted (asked again interactively:" + verdict + ")"
+			}
+			return
+		}
+		res.Attempted = true
+		b = &rebuilder{p: p, s: sess, pkg: fn.Pkg.Pkg, imports: map[string]string{}, objs: map[string]string{}, backs: map[string]*backing{}, ints: map[string]*Term{}, mapsOf: map[string]string{}}
+		argExprs = nil
+		var refine *replayRefine
+		func() {
+			defer func() {
+				if r := recover(); r != nil {
+					if rf, ok := r.(replayFail); ok {
+						res.Why = "the counter-model could not be turned into Go inputs: " + rf.msg
+						return
+					}
+					if rr, ok := r.(replayRefine); ok {
+						refine = &rr
+						return
+					}
+					if _, ok := r.(unsupported); ok {
+						res.Why = "the counter-model could not be turned into Go inputs (unsupported value)"
+						return
+					}
+					panic(r)
+				}
+			}()
+			for i, prm := range fn.Params {
+				if i >= len(fc.entryArgs) {
+					b.fail("parameter %s has no entry value", prm.Name())
+				}
+				a := fc.entryArgs[i]
+				if a.T == nil {
+					b.fail("parameter %s of type %s has no first-class model value", prm.Name(), prm.Type())
+				}
+				argExprs = append(argExprs, b.value(prm.Type(), a.T, 0))
+			}
+			b.finishMaps()
+		}()
+		sess.close()
+		if refine == nil {
+			break
+		}
+		if round == 5 {
+			res.Why = "no extensional model could be extracted (strings of the model are not determined by their bytes)"
+			return
+		}
+		seen := map[string]bool{}
+		for _, e := range extra {
+			seen[e] = true
+		}
+		for _, e := range append(b.pins, refine.constraints...) {
+			if !seen[e] {
+				seen[e] = true
+				extra = append(extra, e)
+			}
+		}
+	}
 	if res.Why != "" {
 		return
 	}
@@ -773,7 +894,11 @@ func (p *Program) replayObligation(o *Obligation, repoDir, verifDir string) (res
 	var body strings.Builder
 	for _, k := range b.border {
 		bk := b.backs[k]
-		fmt.Fprintf(&body, "\t%s := make([]%s, %d)\n", bk.name, b.typeStr(bk.elemT), bk.size)
+		if bk.size-bk.min > 1<<16 {
+			res.Why = "the counter-model needs an array too large to be built in a replay"
+			return
+		}
+		fmt.Fprintf(&body, "\t%s := make([]%s, %d)\n", bk.name, b.typeStr(bk.elemT), bk.size-bk.min)
 	}
 	for _, d := range b.decls {
 		body.WriteString("\t" + d + "\n")
@@ -786,7 +911,7 @@ func (p *Program) replayObligation(o *Obligation, repoDir, verifDir string) (res
 		}
 		sort.Slice(idx, func(i, j int) bool { return idx[i] < idx[j] })
 		for _, i := range idx {
-			fmt.Fprintf(&body, "\t%s[%d] = %s\n", bk.name, i, bk.cells[i])
+			fmt.Fprintf(&body, "\t%s[%d] = %s\n", bk.name, i-bk.min, bk.cells[i])
 		}
 	}
 	for _, a := range b.assigns {
@@ -855,6 +980,23 @@ func TestGovcReplay(t *testing.T) {
 	}
 }
 `, fn.Pkg.Pkg.Name(), o.Name, strings.Join(imps, ""), body.String(), lhs, call, show)
+	// shift the slice bounds by the smallest offset of their array
+	{
+		byName := map[string]*backing{}
+		for _, bk := range b.backs {
+			byName[bk.name] = bk
+		}
+		re := regexp.MustCompile(`(bk\d+)\[@(\d+)@:@(\d+)@:@(\d+)@\]`)
+		res.Test = re.ReplaceAllStringFunc(res.Test, func(m string) string {
+			g := re.FindStringSubmatch(m)
+			bk := byName[g[1]]
+			var x, y, z int64
+			fmt.Sscan(g[2], &x)
+			fmt.Sscan(g[3], &y)
+			fmt.Sscan(g[4], &z)
+			return fmt.Sprintf("%s[%d:%d:%d]", g[1], x-bk.min, y-bk.min, z-bk.min)
+		})
+	}
 	// run it
 	rel := strings.TrimPrefix(fn.Pkg.Pkg.Path(), p.module)
 	rel = strings.TrimPrefix(rel, "/")
@@ -871,7 +1013,7 @@ func TestGovcReplay(t *testing.T) {
 	tf := filepath.Join(tmp, "zz_govc_replay_test.go")
 	os.WriteFile(tf, []byte(res.Test), 0o644)
 	cmd := exec.Command(filepath.Join(verifDir, "tools", "runpkgtest.sh"), rel, tf, "TestGovcReplay")
-	cmd.Env = append(os.Environ(), "REPO="+repoDir)
+	cmd.Env = append(os.Environ(), "REPO="+repoDir, "GOTESTFLAGS=-v", "TAILN=40")
 	var outb bytes.Buffer
 	cmd.Stdout = &outb
 	cmd.Stderr = &outb
@@ -896,20 +1038,13 @@ func TestGovcReplay(t *testing.T) {
 			res.Why = "the process ended inside the call, which is not what this obligation is about"
 		}
 	case strings.HasPrefix(observed, "PANIC"):
-		for _, frag := range panicKinds[o.Kind] {
-			if strings.Contains(observed, frag) {
-				res.Confirmed = true
-			}
-		}
-		if !res.Confirmed {
-			res.Why = "the real code panicked on the model input, but not in the way this obligation is about (" + observed + ")"
-		}
+		// the contract promises a normal return for every input that satisfies the precondition (each
+		// possible run-time panic has its own obligation); the model satisfies the precondition
+		res.Confirmed = true
+		res.Observed = "on an input that satisfies the precondition the real code panics: " + strings.TrimPrefix(observed, "PANIC: ")
 	case strings.HasPrefix(observed, "TIMEOUT"):
-		if o.Kind == "decreases" {
-			res.Confirmed = true
-		} else {
-			res.Why = "the real code did not return on the model input within 10s"
-		}
+		res.Confirmed = true
+		res.Observed = "on an input that satisfies the precondition the real code does not return within 10s"
 	default:
 		res.Why = "the real code returned normally on the entry values of the counter-model (the model's intermediate state is not reached from them, or the violated clause is not observable as a panic)"
 	}
